@@ -373,7 +373,7 @@ def dup_cands(ctx):
 def run(ctx):
     dup_cands(ctx)
     for i in range(ctx.n(9000, 150000)):
-        if ctx.expired():
+        if ctx.expired(0.4):
             break
         cs = gen.cands(ctx.rnd, ctx.rnd.randint(1, 5))
         ctx.guard("ballot", check_ballot, ctx, {"kind": "ballot", "ballot": enc(gen_ballot_spec(ctx.rnd, cs))})
